@@ -307,6 +307,8 @@ def run_default_short(ctx, case):
 def run_case(ctx, case):
     if case.get("kind") == "dclike":
         return dataclass_like_family(ctx, only=case)
+    if case.get("kind") == "listrepl":
+        return list_replaced_family(ctx, only=case)
     import warnings
 
     from jsonargparse import ArgumentError, Namespace
@@ -626,6 +628,62 @@ def dataclass_like_family(ctx, only=None):
                         return
 
 
+def list_replaced_family(ctx, only=None):
+    """a List[Base] argument given twice: the later, plain assignment replaces the list as a whole (C04), so an item of the new list is
+    built from its own spec alone - nothing of the item that stood at the same index before (class, init_args) carries over"""
+    import warnings
+    from typing import List
+
+    from jsonargparse import ArgumentError, ArgumentParser
+
+    warnings.simplefilter("ignore")
+    old_items = [[{"class_path": M + "Child", "init_args": {"a": 6, "c": 0.25}}], [{"class_path": M + "Child", "init_args": {"a": 6}}, {"class_path": M + "Base", "init_args": {"b": "old"}}]]
+    new_items = {"other-class-by-name": ["Base"], "same-class-by-name": ["Child"], "other-class-spec": [{"class_path": M + "GrandChild", "init_args": {"e": [1]}}],
+                 "subclass-by-name": ["GrandChild"]}
+    expect = {"Base": dict(a=1, b="b"), "Child": dict(a=1, b="b", c=0.5), "GrandChild": dict(a=1, b="b", c=0.5)}
+    for oi, old in enumerate(old_items):
+        for nname, new1 in new_items.items():
+            for how in ("argv-argv", "cfg-argv", "cfg-cfg", "object-base"):
+                case = {"kind": "listrepl", "old": oi, "new": nname, "how": how}
+                if only is not None and case != only:
+                    continue
+                if only is None:
+                    ctx.begin(case)
+                ctx.cls("listrepl:" + how)
+                new = list(new1) + ([{"class_path": M + "Child"}] if len(old) == 2 else [])  # same length as the old list
+                p = ArgumentParser(exit_on_error=False)
+                p.add_argument("--cfg", action="config")
+                p.add_argument("--lst", type=List[FAM.Base], default=[])
+                try:
+                    if how == "argv-argv":
+                        cfg = p.parse_args(["--lst", json.dumps(old), "--lst", json.dumps(new)])
+                    elif how == "cfg-argv":
+                        cfg = p.parse_args(["--cfg", json.dumps({"lst": old}), "--lst", json.dumps(new)])
+                    elif how == "cfg-cfg":
+                        cfg = p.parse_args(["--cfg", json.dumps({"lst": old}), "--cfg", json.dumps({"lst": new})])
+                    else:
+                        cfg = p.parse_object({"lst": copy.deepcopy(new)}, cfg_base=p.parse_object({"lst": copy.deepcopy(old)}))
+                    del FAM.LOG[:]
+                    built = p.instantiate_classes(cfg).lst
+                except ArgumentError as ex:
+                    ctx.finding(f"C14/list-replaced/valid-input-rejected/{how}", {"old": old, "new": new, "error": short(str(ex), 300)})
+                    built = None
+                except Exception as ex:  # noqa
+                    ctx.cls(f"escape (C03): {type(ex).__name__}")
+                    built = None
+                if built is not None:
+                    cname = new1[0] if isinstance(new1[0], str) else new1[0]["class_path"].rsplit(".", 1)[-1]
+                    want = dict(expect[cname], **(new1[0].get("init_args", {}) if isinstance(new1[0], dict) else {}))
+                    got = {k: getattr(built[0], k) for k in want} if len(built) == len(new) and type(built[0]).__name__ == cname else None
+                    if got != want:
+                        ctx.finding(f"C14/list-replaced/item-carries-over-what-stood-at-its-index-before/{how}",
+                                    {"old": old, "new": new, "built": [type(b).__name__ for b in built], "got": got, "expected": want})
+                if only is None:
+                    ctx.mark_nontrivial_enumerated()
+                    if not ctx.end(raise_on_fail=False):
+                        return
+
+
 def body(ctx):
     def f(case):
         ctx.begin(case)
@@ -643,7 +701,8 @@ def plan(tier):
 
 def run_shard(spec, ctx):
     if spec.get("kind") == "dclike":
-        return dataclass_like_family(ctx)
+        dataclass_like_family(ctx)
+        return list_replaced_family(ctx)
     run_given(ctx, case_strategy(), body(ctx), spec["n"])
 
 
